@@ -3907,12 +3907,19 @@ class SQLCompiler(Compiled):
         is_upsert_set=False,
         **kwargs,
     ):
-        # Detect parametrized bindparams in upsert SET clause for issue #13130
+        # Detect parametrized bindparams in upsert SET clause for issue #13130;
+        # a bindparam that has a default value is per-row as well when the
+        # parameter sets supply its key
         if (
             is_upsert_set
-            and bindparam.value is None
-            and bindparam.callable is None
             and self._insertmanyvalues is not None
+            and (
+                (bindparam.value is None and bindparam.callable is None)
+                or (
+                    self.column_keys is not None
+                    and bindparam.key in self.column_keys
+                )
+            )
         ):
             self._insertmanyvalues = self._insertmanyvalues._replace(
                 has_upsert_bound_parameters=True
